@@ -173,8 +173,13 @@ def _header_variant(spec: dict, ifile: int, fields: dict) -> dict:
 def gen_pads(rng, n, small=9):
     """Lengths of the free-text header strings of n files: mostly short, sometimes the long archive paths
     other packages write (longer than the 80 characters some C tools stop at)."""
-    if rng.random() < 0.12:
+    r = rng.random()
+    if r < 0.12:
         return [rng.choice([79, 80, 81, 95, 200, 300]) for _ in range(n)]
+    if r < 0.24:
+        # any header length from ~340 to ~1050 bytes: where HEADER_END straddles a 512- or 1024-byte boundary, where the
+        # header ends exactly on one, ... (9 lengths out of every 512 are special to a chunked parser)
+        return [rng.randint(0, 700) for _ in range(n)]
     return [rng.randint(0, small) for _ in range(n)]
 
 
